@@ -427,6 +427,7 @@ func genC18(r *Rand, tier string, i int) *h.Scenario {
 	p.PExt = 0.4
 	p.WWrite = 5
 	p.PTerminal = 0.5
+	p.PTightTerm = 0.3
 	p.PDelay = 0
 	p.PQueueAfter = 0.08
 	p.RefreshW = [3]int{7, 2, 0}
@@ -450,6 +451,22 @@ func judgeC18(hi *Hist) []*Violation {
 	add := func(o, f string, a ...interface{}) {
 		if len(out) == 0 {
 			out = append(out, viol("C18", o, f, a...))
+		}
+	}
+	// the per-bar rules below read a bar's history off the frames: they need every rendered bar to
+	// be visible, i.e. no frame clipped by the terminal height (the screen equation above has no such limit)
+	for _, f := range frames {
+		rendered := 0
+		for range f.Spy {
+			rendered++
+		}
+		if rendered > len(f.Groups) {
+			return nil
+		}
+		for _, g := range f.Groups {
+			if g.Bar >= 0 && g.Bar < len(facts) && g.To-g.From < 1+facts[g.Bar].Spec.ExtRows {
+				return nil
+			}
 		}
 	}
 	lastFrameOf, firstTerm := map[int]int{}, map[int]int{}
